@@ -32,11 +32,31 @@ type SpecEnv struct {
 	CalleeView bool // evaluating a callee's contract at a call site: locals of the caller are not visible
 	LoopHeader *ssa.BasicBlock // set while evaluating a loop invariant
 	AllocPre   *smt.Term        // allocation set at the time of the call (callee contracts)
+	DefHeap    *defHeap         // set while building the definition of a recursive spec function
 	macroDepth int
+}
+
+// defHeap: heap entries read by a recursive spec function become hidden parameters of its definition.
+type defHeap struct {
+	names []string
+	vars  map[string]*smt.Term
 }
 
 func (env *SpecEnv) heap(name string) *smt.Term {
 	x := env.X
+	if env.DefHeap != nil {
+		if v, ok := env.DefHeap.vars[name]; ok {
+			return v
+		}
+		srt, ok := x.E.HeapSorts[name]
+		if !ok {
+			panic("unknown heap " + name)
+		}
+		v := smt.Var("hp$"+name, srt)
+		env.DefHeap.vars[name] = v
+		env.DefHeap.names = append(env.DefHeap.names, name)
+		return v
+	}
 	if env.UseOld {
 		if t, ok := env.Old[name]; ok {
 			return t
@@ -277,6 +297,18 @@ func (x *Exec) evalIdent(env *SpecEnv, name string) SVal {
 	}
 	if v, ok := env.Vars[name]; ok {
 		return v
+	}
+	if (name == "visited" || name == "$visited") && env.LoopHeader != nil && !env.CalleeView {
+		// the set of keys already produced by the map range whose loop invariant is being evaluated
+		for _, in := range env.LoopHeader.Instrs {
+			if nx, ok := in.(*ssa.Next); ok {
+				if rg, ok := nx.Iter.(*ssa.Range); ok {
+					if mt, ok := rg.X.Type().Underlying().(*types.Map); ok {
+						return SVal{T: env.heap(x.iterHeap(rg, mt))}
+					}
+				}
+			}
+		}
 	}
 	switch name {
 	case "nil":
@@ -576,6 +608,12 @@ func (x *Exec) evalCall(env *SpecEnv, e *spec.Call) SVal {
 	case "fmtx":
 		sl := e.Args[0].(*spec.StrLit)
 		return SVal{T: smt.App("fmt$x$"+sanitizeFlags(sl.Val), smt.Seq(smt.Int), arg(1).T), GT: types.Typ[types.String]}
+	case "fmtxs":
+		// fmtxs("", b): fmt %x of a byte slice / string
+		sl := e.Args[0].(*spec.StrLit)
+		return SVal{T: smt.App("fmt$xs$"+sanitizeFlags(sl.Val), smt.Seq(smt.Int), arg(1).T), GT: types.Typ[types.String]}
+	case "utf8enc":
+		return SVal{T: smt.App("utf8enc", smt.Seq(smt.Int), arg(0).T), GT: types.Typ[types.String]}
 	case "typeof":
 		return SVal{T: TypeOf(arg(0).T)}
 	case "unit":
@@ -732,10 +770,22 @@ func (x *Exec) evalCall(env *SpecEnv, e *spec.Call) SVal {
 		for _, a := range args {
 			ts = append(ts, a.T)
 		}
+		name := "sf$" + sf.Name
 		if sf.Recursive {
-			x.E.ensureDef(x, sf)
+			if sf.building {
+				if sf.discovering {
+					name = "sfdisc$" + sf.Name // first pass: only finds out which heap entries the body reads
+				}
+			} else {
+				x.E.ensureDef(x, sf)
+			}
+			if !sf.discovering {
+				for _, h := range sf.hidden {
+					ts = append(ts, env.heap(h))
+				}
+			}
 		}
-		return SVal{T: smt.App("sf$"+sf.Name, sf.ResSort, ts...), GT: sf.ResGo}
+		return SVal{T: smt.App(name, sf.ResSort, ts...), GT: sf.ResGo}
 	}
 	// macro expansion in the current state
 	if env.macroDepth > 20 {
@@ -764,31 +814,48 @@ func (x *Exec) evalCall(env *SpecEnv, e *spec.Call) SVal {
 	return r
 }
 
-// ensureDef builds the define-fun-rec text of a recursive spec function.
+// ensureDef builds the definition of a recursive spec function. Heap entries the body reads (fields, ghost
+// fields, maps) become hidden parameters: the function is a function of its arguments and of those entries, and
+// every use passes the entries of the state it is evaluated in.
 func (e *Engine) ensureDef(x *Exec, sf *SpecFuncInfo) {
-	if sf.defText != "" || sf.building {
+	if sf.def != nil || sf.building {
 		return
 	}
 	sf.building = true
 	defer func() { sf.building = false }()
 	vars := map[string]SVal{}
-	var sig []string
+	var ps []*smt.Term
 	for i, p := range sf.Params {
 		bv := smt.Var("a$"+p.Name, sf.ParamSort[i])
 		vars[p.Name] = SVal{T: bv, GT: sf.ParamGo[i]}
-		sig = append(sig, fmt.Sprintf("(%s %s)", "a$"+p.Name, sf.ParamSort[i]))
+		ps = append(ps, bv)
 	}
-	st := &State{heap: map[string]*smt.Term{}, cells: map[*ssa.Alloc]Val{}, env: map[ssa.Value]Val{}}
-	env := &SpecEnv{X: x, S: st, Vars: vars, Pkg: sf.Pkg, CalleeView: true, Old: map[string]*smt.Term{}}
+	mk := func() (*SpecEnv, *defHeap) {
+		dh := &defHeap{vars: map[string]*smt.Term{}}
+		st := &State{heap: map[string]*smt.Term{}, cells: map[*ssa.Alloc]Val{}, env: map[ssa.Value]Val{}}
+		return &SpecEnv{X: x, S: st, Vars: vars, Pkg: sf.Pkg, CalleeView: true, Old: map[string]*smt.Term{}, DefHeap: dh}, dh
+	}
+	// pass 1: discover the heap entries read
+	sf.discovering = true
+	env, dh := mk()
+	func() {
+		defer func() { sf.discovering = false }()
+		x.eval(env, sf.Body)
+	}()
+	sf.hidden = append([]string{}, dh.names...)
+	// pass 2: the real body, recursive calls now pass the hidden parameters along
+	env, dh2 := mk()
+	for _, h := range sf.hidden {
+		env.heap(h)
+	}
 	body := x.eval(env, sf.Body)
-	if len(st.heap) > 0 {
-		specFail("recursive spec function %s must not read the heap", sf.Name)
+	if len(dh2.names) != len(sf.hidden) {
+		specFail("recursive spec function %s: unstable set of heap entries", sf.Name)
 	}
-	sf.defText = fmt.Sprintf("(define-fun-rec sf$%s (%s) %s %s)", sf.Name, strings.Join(sig, " "), sf.ResSort, body.T.String())
-	var ps []*smt.Term
-	for _, p := range sf.Params {
-		ps = append(ps, vars[p.Name].T)
+	for _, h := range sf.hidden {
+		ps = append(ps, dh2.vars[h])
 	}
+	sf.defText = "(defined)"
 	sf.def = &smt.DefFun{Name: "sf$" + sf.Name, Params: ps, Res: sf.ResSort, Body: body.T}
 }
 
